@@ -20,7 +20,7 @@ mod verif_c19t {
     /// lines (p1,p2), (p1,p3), (p2,p3) are the same Line values for every vertex order and for the two
     /// triangles sharing an edge, so a shared edge is rasterised to the same pixels (C17: Bresenham is
     /// a function of the Line).
-    //@harness prop=C19 kind=lemma tier=quick class=P fns=src/primitives/triangle/mod.rs::Triangle::sorted_yx;src/primitives/triangle/mod.rs::sort_two_yx
+    //@harness prop=C19,C08 kind=lemma tier=quick class=P fns=src/primitives/triangle/mod.rs::Triangle::sorted_yx;src/primitives/triangle/mod.rs::sort_two_yx
     #[kani::proof]
     fn c19_sorted_yx_is_order_independent() {
         let (a, b, c) = (any_point(4096), any_point(4096), any_point(4096));
